@@ -95,7 +95,7 @@ func runC13(w *World, r *Report, tier string) {
 			}
 			if nr == 0 && nk == 0 {
 				// allowed only if the returned error is asserted non-nil on the path
-				res := ret.Results[len(ret.Results)-1]
+				res := rres(path, ret)[len(ret.Results)-1]
 				if pathAsserts(path, func(c ssa.Value, truth bool) bool { return assertsNonNil(c, truth, res) }) {
 					nErr++
 					return
@@ -220,10 +220,21 @@ func runC13(w *World, r *Report, tier string) {
 		v := chanOrigin(c.Common().Args[0])
 		if mc, ok := v.(*ssa.MakeClosure); ok {
 			handler, _ = mc.Fn.(*ssa.Function)
+			// a method value (sm.handleEvent): the wrapper stands for the method
+			if handler != nil && handler.Synthetic != "" {
+				if fo, ok := handler.Object().(*types.Func); ok {
+					if decl := w.Prog.FuncValue(fo); decl != nil && decl.Blocks != nil {
+						handler = decl
+					}
+				}
+			}
+		}
+		if f, ok := v.(*ssa.Function); ok && f.Blocks != nil {
+			handler = f
 		}
 	}
 	if handler == nil {
-		r.Undecided("R4", "xmpp.(*StreamManager).Run#handler", w.pos(run.Pos()), "the event handler installed by Run is not a local closure")
+		r.Undecided("R4", "xmpp.(*StreamManager).Run#handler", w.pos(run.Pos()), "the event handler installed by Run is neither a local closure nor a method/function of the module")
 	} else {
 		// the switched value: load of e.State.state
 		var sw ssa.Value
@@ -306,7 +317,7 @@ func runC13(w *World, r *Report, tier string) {
 				if !perm {
 					bad = "the retry loop gives up after an error that is not a permanent ConnError (return at " + w.ipos(last) + ")"
 				}
-				if isNilConst(ret.Results[0]) {
+				if isNilConst(rres(path, ret)[0]) {
 					bad = "a permanent error ends the loop but nil is returned"
 				}
 				if countOn(path, isPC) != 0 {
@@ -367,7 +378,7 @@ func runC13(w *World, r *Report, tier string) {
 			if !failed && n > 1 {
 				bad = "PostConnect runs more than once"
 			}
-			if ret, ok := path[len(path)-1].(*ssa.Return); ok && failed && isNilConst(ret.Results[0]) {
+			if ret, ok := path[len(path)-1].(*ssa.Return); ok && failed && isNilConst(rres(path, ret)[0]) {
 				bad = "a failed first connection is reported as success"
 			}
 		})
